@@ -70,6 +70,7 @@ type Axiom struct {
 	E      *Expr
 	Src    string
 	Manual bool // never added as a quantified formula: instantiated only through `hint` clauses
+	Computed bool // a ground fact about string literals, CHECKED by evaluating it (not an assumption)
 }
 
 type Specs struct {
@@ -300,13 +301,16 @@ func (sp *Specs) parseLines(lines []rawLine, pkgPath string) error {
 				return fmt.Errorf("%s: %v", where, err)
 			}
 			if kw == "axiom" {
-				manual := false
+				manual, computed := false, false
 				for _, t := range strings.Split(m[1], ",") {
 					if strings.TrimSpace(t) == "manual" {
 						manual = true
 					}
+					if strings.TrimSpace(t) == "computed" {
+						computed = true
+					}
 				}
-				sp.Axioms = append(sp.Axioms, &Axiom{m[2], e, src, manual})
+				sp.Axioms = append(sp.Axioms, &Axiom{m[2], e, src, manual, computed})
 			} else {
 				var tags []string
 				for _, t := range strings.Split(m[1], ",") {
